@@ -26,7 +26,8 @@ fn main() {
     let mut checked = 0u64; let mut bad = 0u64;
     let mut lists: Vec<Vec<(OsString, OsString)>> = vec![vec![]];
     let mut frontier = lists.clone();
-    for _ in 0..5 {
+    let thorough = std::env::args().nth(1).map(|a| a == "thorough").unwrap_or(false);
+    for _ in 0..(if thorough { 7 } else { 5 }) {
         let mut next = vec![];
         for l in &frontier { for p in &pairs { let mut t = l.clone(); t.push(p.clone()); next.push(t); } }
         lists.extend(next.iter().cloned());
